@@ -40,8 +40,8 @@ func suiteHash(c *ctx) {
 	}
 	for i := 0; i < n; i++ {
 		dialect := []string{"mysql", "mysql", "mysql", "postgres", "sqlite3"}[c.rng.Intn(5)]
-		if i == 0 {
-			dialect = "mysql" // the first case is fixed below (C07-a: two indexes on one table, so that "permuted-indexes" differs)
+		if i == 0 || i == 1 {
+			dialect = "mysql" // the first two cases are fixed below (C07-a: two indexes on one table, so that "permuted-indexes" differs)
 		}
 		if c.dialect != "" {
 			dialect = c.dialect
@@ -56,6 +56,12 @@ func suiteHash(c *ctx) {
 			s = &gSchema{Tables: []*gTable{{Name: "t", Cols: []ColDef{{Name: "id", Typ: "int(11)", Opts: []Opt{{Kind: "notnull"}, {Kind: "pk"}}}, {Name: "a", Typ: "int(11)"}, {Name: "userName", Typ: "varchar(64)"}, {Name: "c", Typ: "int(11)"}},
 				Idx: []gIndex{{Name: "i1", Cols: []string{"a"}}, {Name: "i2", Cols: []string{"userName", "c"}, Unique: true}}}, // a mixed-case column under an index (seeded change C07-e)
 				{Name: "u", Cols: []ColDef{{Name: "x", Typ: "int(11)"}, {Name: "y", Typ: "decimal(10,2)"}}}}}
+		}
+		if i == 1 && c.dialect == "" && dialect == "mysql" {
+			// the second case is fixed too (C07-r): a composite key declared at table level and a composite index, whose
+			// column orders are part of the schema
+			s = &gSchema{Tables: []*gTable{{Name: "m", Cols: []ColDef{{Name: "tenant_id", Typ: "int(11)", Opts: []Opt{{Kind: "notnull"}}}, {Name: "id", Typ: "int(11)", Opts: []Opt{{Kind: "notnull"}}}, {Name: "a", Typ: "int(11)"}, {Name: "b", Typ: "int(11)"}},
+				Pk: []string{"tenant_id", "id"}, Idx: []gIndex{{Name: "i_ab", Cols: []string{"a", "b"}}}}}}
 		}
 		base := s.scriptGrouped()
 		whole := func(ss []Stmt) [][]Stmt {
@@ -292,6 +298,30 @@ func suiteHash(c *ctx) {
 				src.Cols = src.Cols[:len(src.Cols)-1]
 				dst.Cols = append(dst.Cols, mv)
 				addEdit("move-column", e)
+			}
+		}
+		// the order of the columns of a composite key or index is part of the schema
+		for _, t0 := range s.Tables {
+			if len(t0.Pk) >= 2 {
+				e := s.clone()
+				t := e.table(t0.Name)
+				for a, b := 0, len(t.Pk)-1; a < b; a, b = a+1, b-1 {
+					t.Pk[a], t.Pk[b] = t.Pk[b], t.Pk[a]
+				}
+				addEdit("reorder-key-columns", e)
+			}
+			for k := range t0.Idx {
+				if len(t0.Idx[k].Cols) >= 2 {
+					e := s.clone()
+					t := e.table(t0.Name)
+					cs := append([]string{}, t.Idx[k].Cols...)
+					for a, b := 0, len(cs)-1; a < b; a, b = a+1, b-1 {
+						cs[a], cs[b] = cs[b], cs[a]
+					}
+					t.Idx[k].Cols = cs
+					addEdit("reorder-index-columns", e)
+					break
+				}
 			}
 		}
 		c.count("dialect_" + dialect)
